@@ -496,6 +496,17 @@ class TaskDispatcher(object):
                 # Cancel the timeout previously set for this orphaned_response.
                 self.state_engine.event_dispatcher.clear_timeout(timeout_id)
                 del self.orphaned_responses[correlation_id]
+                """
+                The stored response is normally the message being handled now
+                (handle_orphaned_responses passes it in again once the Task
+                has been reconstructed). If it is a different one, e.g. a
+                TaskToken callback whose sender got no answer because of the
+                restart and sent it again, it is a duplicate of the response
+                that completes the Task: with its timeout cancelled nothing
+                else would ever acknowledge it, so do that here.
+                """
+                if m is not message:
+                    m.acknowledge(multiple=False)
 
             del self.pending_requests[correlation_id]
 
